@@ -29,6 +29,11 @@ def seeded_table():
         m = json.load(open(mp))
         n += 1
         caught = m.get("caught_by", "?")
+        final = m.get("caught_by_final_run")
+        if final:
+            # clauses reported by the checks as committed; the history ("missed at first: ...") comes from caught_by
+            hist = re.search(r"\((missed at first|first a harness error).*$", str(caught))
+            caught = final + (" " + hist.group(0) if hist else "")
         if caught and not caught.lower().startswith("missed"):
             c += 1
         needs = str(m.get("needs", "")).replace("|", "\\|").replace("\n", " ")[:260]
